@@ -271,6 +271,16 @@ func schedBound(s *EngSpec, q bool) int {
 	return 3
 }
 
+// schedCapT: per-worker execution caps for the quick and the thorough tier.
+func schedCapT(per, thorough int64) func(s *EngSpec, q bool) int64 {
+	return func(s *EngSpec, q bool) int64 {
+		if q {
+			return per
+		}
+		return thorough
+	}
+}
+
 func schedCap(per int64) func(s *EngSpec, q bool) int64 {
 	return func(s *EngSpec, q bool) int64 {
 		if q {
